@@ -67,6 +67,7 @@ def main(argv):
             ctx.vtrace = instr.ValidatorTrace().install()
 
     rc = 0
+    ctx.arm_stall_guard()
     try:
         if spec.get("mode") == "replay":
             mod.replay(ctx, spec["replay_case"])
@@ -79,6 +80,18 @@ def main(argv):
         if ctx.reach is not None:
             ctx.reach.stop()
     res = ctx.result()
+    # anchors that do not exist in this tree (renamed / inlined by a refactoring) are not a starvation signal
+    absent = []
+    for fn in getattr(mod, "REQUIRED_REACH", []) or []:
+        for name in (fn if isinstance(fn, (list, tuple)) else [fn]):
+            parts = name.split(".")
+            try:
+                obj = importlib.import_module("productmd." + parts[0])
+                for part in parts[1:]:
+                    obj = getattr(obj, part)
+            except Exception:
+                absent.append(name)
+    res["reach_absent"] = absent
     if harvest is not None:
         harvest.scan_compiled()
         res["harvest"] = {"events": harvest.events,
